@@ -138,7 +138,7 @@ def run(ctx):
         ctx.ob("C15.G.hook-errors-get-item-span", f.key, "failing cases exist", len(failing) >= 2, "%d failing cases" % len(failing))
         for c, v in failing:
             spanned = re.match(r"^core::result::Result::Err\{darling_core::error::Error::with_span\(.*, a1\)\}$", v) is not None
-            syn_err = re.match(r"^core::result::Result::Err\{\(darling_core::ast::data::NestedMeta::parse_meta_list\(.*\) as Err\)\.0\}$", v) is not None
+            syn_err = re.match(r"^core::result::Result::Err\{From::from\(\(darling_core::ast::data::NestedMeta::parse_meta_list\(.*\) as Err\)\.0\)\}$", v) is not None
             ctx.ob("C15.G.hook-errors-get-item-span", f.key, "failing case under %s" % [a[:60] for a in c if a.startswith("discr(")], spanned or syn_err,
                    "an error leaves the default %s without .with_span(item): %s" % (h, v[:200]))
     f = ctx.fn(T + "from_nested_meta")
@@ -153,15 +153,16 @@ def run(ctx):
         ok_path = v.get("discr(a1)=Path") == ["%sfrom_word()" % T]
         ok_nv = v.get("discr(a1)=NameValue") == ["%sfrom_expr((a1 as NameValue).0.value)" % T]
         lst = v.get("discr(a1)=List") or []
-        ok_list = any(re.match(r"^%sfrom_list\(.*index\(\(darling_core::ast::data::NestedMeta::parse_meta_list\(.*clone\(\(a1 as List\)\.0\.tokens\)\) as Ok\)\.0, " % re.escape(T), e) for e in lst)
+        # `&v[..]`, `&v` (deref coercion) and `v.as_slice()` hand the same slice to from_list
+        ok_list = any(re.match(r"^%sfrom_list\((?:.*index\()?\(darling_core::ast::data::NestedMeta::parse_meta_list\(.*clone\(\(a1 as List\)\.0\.tokens\)\) as Ok\)\.0[,)]" % re.escape(T), e) for e in lst)
         ctx.ob("C15.E.meta-routing-word", f.key, "Path → from_word()", ok_path, "%s" % v.get("discr(a1)=Path"))
         ctx.ob("C15.E.meta-routing-value", f.key, "NameValue → from_expr(&value.value)", ok_nv, "%s" % v.get("discr(a1)=NameValue"))
         ctx.ob("C15.E.meta-routing-list", f.key, "List → from_list(&parse_meta_list(tokens.clone())?[..])", ok_list, "%s" % [e[:200] for e in lst])
         ctx.ob("C15.E.meta-routing-exhaustive", f.key, "three forms", set(v) >= {"discr(a1)=Path", "discr(a1)=NameValue", "discr(a1)=List"}, "%s" % sorted(v))
         # an unparsable list is an error that keeps syn's span (from_residual of syn::Error → Error::from)
-        res = ctx.find_calls(f, r"from_residual")
-        ok = len(res) == 1 and any("syn::error::Error" in a for a in (mir.callee_info(res[0][1]).get("targs") or []) + [mir.callee_info(res[0][1]).get("fn_with_args") or ""])
-        ctx.ob("C15.G.bad-list-is-error", f.key, "parse_meta_list(..)?", ok, "%s" % [mir.callee_info(t).get("fn_with_args") for _, t in res])
+        bad = [v2 for c2, v2 in resalg.cases(ctx, f) if any(re.match(r"^is_ok\(darling_core::ast::data::NestedMeta::parse_meta_list\(.*\)\)=False$", a) for a in c2)]
+        ok = len(bad) == 1 and re.match(r"^core::result::Result::Err\{From::from\(\(darling_core::ast::data::NestedMeta::parse_meta_list\(.*\) as Err\)\.0\)\}$", bad[0]) is not None
+        ctx.ob("C15.G.bad-list-is-error", f.key, "parse_meta_list(..) fails => Err(Error::from(syn error))", ok, "%s" % [x[:200] for x in bad])
         check_dispatcher(ctx, f)
     default_expr_routing_rules(ctx, "C15")
     f = ctx.fn(T + "from_value")
